@@ -50,6 +50,11 @@ def spec_hash(spec):
 
 
 _NUM = re.compile(r'\d+')
+_QUOTED = re.compile(r"""b?'[^']*'|b?"[^"]*\"""")
+
+
+def norm_msg(msg, n=70):
+  return _NUM.sub('N', _QUOTED.sub('S', str(msg)))[:n]
 
 
 def exc_bucket(exc):
@@ -59,7 +64,7 @@ def exc_bucket(exc):
   for fr in tb:
     if 'ai_edge_quantizer' in fr.filename:
       frame = '%s:%s' % (os.path.basename(fr.filename), fr.name)
-  msg = _NUM.sub('N', str(exc))[:70]
+  msg = norm_msg(exc)
   return '%s@%s|%s' % (type(exc).__name__, frame, msg)
 
 
